@@ -250,6 +250,9 @@ pub fn pool(seed: u64) -> Pool {
     // lazer DifficultyAdjust overrides that leave everything else as in "N": osu! circle size 7, catch circle size 7
     c.insert("E".to_string(), Cfg { da_cs: Some((7.0, 0)), ..Default::default() });
     c.insert("F".to_string(), Cfg { da_cs: Some((7.0, 2)), ..Default::default() });
+    // the lazer Random mod without a seed (taiko / mania set)
+    c.insert("R1".to_string(), Cfg { random_unseeded: Some(1), ..Default::default() });
+    c.insert("R3".to_string(), Cfg { random_unseeded: Some(3), ..Default::default() });
     c.insert("D".to_string(), Cfg { mods: 16, da_scroll: Some(0.5), od: Some((2.0, false)), clock_rate: Some(0.8), random_seed: Some(1234), ..Default::default() });
     Pool { texts, cfgs: c }
 }
@@ -580,6 +583,12 @@ pub fn threads_main(args: &[String]) -> i32 {
         }
         for op in ["totaiko", "tocatch"] {
             plain.push(Call { op: op.into(), m: m.into(), cfg: "-".into(), h: "-".into() });
+        }
+    }
+    // the unseeded lazer Random mod
+    for (m, cfg) in [("m2", "R1"), ("m4", "R3")] {
+        for op in ["calc", "strains", "perf"] {
+            plain.push(Call { op: op.into(), m: m.into(), cfg: cfg.into(), h: "-".into() });
         }
     }
     // jobs that differ ONLY in a lazer DifficultyAdjust override (same map values, same HR / EZ, same clock rate)
